@@ -5,7 +5,7 @@ import tempfile
 from harness import tlc
 
 BASE = dict(NT=2, NW=2, MaxRep=2, MaxRuns=2, MaxFail=1, Kind="pause", Async=True, Wait=False, Del=True,
-            FailB=1, ExtB=0, CKind="script", K=0, EmptyExit=False, MayExhaust=False, R3=True, R13=True, R8=True, Sjwd=True, SpecRm=False)
+            FailB=1, ExtB=0, CKind="script", K=0, EmptyExit=False, MayExhaust=False, R3=True, R13=True, R8=True, Sjwd=True, SpecRm=False, K2=0)
 
 ALL_INVARIANTS = {
     "C01": ["WorkerBudget", "IdsInSequence", "LifeCycle", "ResumeOnlyPaused", "CallbackProtocol"],
